@@ -4,7 +4,7 @@ from spec import paging as SP
 from ..bits import BV, Aff, lit
 from ..interp import State, Unsupported
 from ..values import UNIT, Enum, Ref, Struct
-from .common import SIZES, U64, USIZE, adt, arg_obj, bv, declare, eval_value, fn_site, inner, same, size_ty, sl
+from .common import newtype, SIZES, U64, USIZE, adt, arg_obj, bv, declare, eval_value, fn_site, inner, same, size_ty, sl
 from .c03 import canonical
 from .c07 import half_va, wrap_sites
 
@@ -62,7 +62,7 @@ def step_cases():
 
 
 def mk_start(tyname, bits):
-    return Struct(VA, [bits]) if tyname == VA else Struct(PG, [Struct(VA, [bits]), UNIT])
+    return Struct(VA, [bits]) if tyname == VA else newtype(None, PG, Struct(VA, [bits]))
 
 
 def addr_steps(chk, rules=None, rule_name=None):
